@@ -80,7 +80,7 @@ OPV = {
     "small": [("translate", [-2, 0.5]), ("scale", [0.5, 30]), ("rotate", [30, 1, -2]), ("skewX", [30]), ("skewY", [1e1]), ("matrix", [0, 1, 1, 0, -2, 90])],
 }
 # (between-args, between-ops, pre-paren, pad)
-SEPSTYLES = [(",", " ", "", ""), (" ", ",", "", ""), (", ", " , ", " ", " "), ("\n", "\n", "", "\t"), (" , ", "", "", ""), ("\t", "  ", "\n", " ")]
+SEPSTYLES = [(",", " ", "", ""), (" ", ",", "", ""), (", ", " , ", " ", " "), ("\n", "\n", "", "\t"), (" , ", "", "", ""), ("\t", "  ", "\n", " "), ("\r\n", " \n", "  \t", "\n ")]
 
 
 def numstr(v, style):
@@ -462,7 +462,7 @@ def cases(tier, seed):
 def run(run):
     run.rule = (
         "E2: (a) transform lists = products of per-operation variants (matrix/translate 1-2/scale 1-2/rotate 1|3/skewX/skewY over "
-        "{0,1,-2,.5,30,90,1e1}) x 6 separator styles, length 1-3 (quick) / 1-5 (thorough), plus lists of length 1-3 over 9 translate / scale / matrix operations with powers of two between 2^-40 and 2^40, vs the specification product of R2 "
+        "{0,1,-2,.5,30,90,1e1}) x 7 separator styles (incl. several whitespace characters between the name and its parenthesis), length 1-3 (quick) / 1-5 (thorough), plus lists of length 1-3 over 9 translate / scale / matrix operations with powers of two between 2^-40 and 2^40, vs the specification product of R2 "
         "(exact equality for rational operations); (b) real Affine2D over exact int/Fraction entries: all 6^6 matrices over "
         "{-2,-1,0,1/2,1,3} (det, map_point, inverse, M.M^-1=I, degenerate rule, tostring/fromstring), the same with the linear part scaled by 2^k (k in -60..30; thorough -500..500), all ordered pairs over {-1,0,2}^6 "
         "(quick) / {-1,0,1/2,2}^6 (thorough) for compose order, triples of a sparse set for associativity; (c) rect_to_rect for all src/dst "
